@@ -116,7 +116,7 @@ CHECKS["C19"] = dict(
 CHECKS["C11"] = dict(
     level="exploration", engine="enum", design_ref="DESIGN.md §5 C11",
     technique="bounded-exhaustive enumeration of server URLs x cookie encodings x cookie mutations x pool-change sequences on the real balancers (cookie round trip through net/http)",
-    text="Full product of 576 (thorough: more) server URLs x 22 encodings (raw, hashed, AES-GCM with/without ttl, all fallback chains) x {RoundRobin, Rebalancer}: an intact cookie pins the client to its server whatever the rotation state and weights; absent, expired, removed-server cookies are balanced among current members with a fresh working cookie. For a subset of URLs every truncation, every single-bit flip, re-encodings and foreign-key cookies, and every pool-change sequence up to length 3.",
+    text="Full product of 896 (thorough: more) server URLs x 22 encodings (raw, hashed, AES-GCM with/without ttl, all fallback chains) x {RoundRobin, Rebalancer}: an intact cookie pins the client to its server whatever the rotation state and weights; absent, expired, removed-server cookies are balanced among current members with a fresh working cookie. For a subset of URLs every truncation, every single-bit flip, re-encodings and foreign-key cookies, and every pool-change sequence up to length 3.",
     note="frozen clock; cookie values pass through http.SetCookie / Response.Cookies / Request.AddCookie exactly as in a real exchange",
     parts=[dict(bin="vh", part="c11", shards=16, budget=dict(quick=100, thorough=1500))])
 
